@@ -212,25 +212,31 @@ func ParseInline(s string) []Item {
 	return p.declList()
 }
 
-// BadTokens reports bad-string / bad-url tokens and unbalanced brackets (for C09).
-func BadTokens(s string) (bad int, balance [3]int) {
+// BadTokens reports bad-string / bad-url tokens and whether all brackets nest properly (for C09):
+// every closer matches the innermost open bracket and nothing is left open at the end.
+func BadTokens(s string) (bad int, balanced bool) {
+	var stack []TT
+	balanced = true
 	for _, t := range Tokenize(s) {
 		switch t.T {
 		case BadString, BadURL:
 			bad++
 		case LParen, Function:
-			balance[0]++
-		case RParen:
-			balance[0]--
+			stack = append(stack, RParen)
 		case LBracket:
-			balance[1]++
-		case RBracket:
-			balance[1]--
+			stack = append(stack, RBracket)
 		case LBrace:
-			balance[2]++
-		case RBrace:
-			balance[2]--
+			stack = append(stack, RBrace)
+		case RParen, RBracket, RBrace:
+			if len(stack) == 0 || stack[len(stack)-1] != t.T {
+				balanced = false
+			} else {
+				stack = stack[:len(stack)-1]
+			}
 		}
+	}
+	if len(stack) != 0 {
+		balanced = false
 	}
 	return
 }
